@@ -8,7 +8,7 @@ for d in sorted(glob.glob('/verif/seeded/*')):
     if only and name not in only: continue
     mp = os.path.join(d, 'meta.json')
     meta = json.load(open(mp)) if os.path.exists(mp) else {}
-    prop = meta.get('property', name[:3])
+    prop = name[:3]
     checks = meta.get('checks_run', [prop])
     r = subprocess.run(['git','-C','/repo','apply',os.path.join(d,'patch.diff')],capture_output=True,text=True)
     if r.returncode != 0:
